@@ -17,7 +17,7 @@ func TestMinimalHistories(t *testing.T) {
 	h1 := mHost{Addr: hostAddrPool[0], Weight: 1}
 	h2 := mHost{Addr: hostAddrPool[1], Weight: 2}
 	attrs := &mCluster{Lb: "LB_ROUNDROBIN", MaxReq: 100, Buf: 1024}
-	ln := func(idle int) *mListener { return &mListener{Addr: "127.0.0.1:30000", RouterRef: "r", IdleSec: idle} }
+	ln := func(idle int) *mListener { return &mListener{Addr: "127.0.0.1:30000", RouterRef: "r0", IdleSec: idle} }
 	scripts := []struct {
 		name string
 		ops  []*op
@@ -36,6 +36,10 @@ func TestMinimalHistories(t *testing.T) {
 		{"listener-idle-timeout-updated", []*op{
 			{Kind: "AddOrUpdateListener", Listener: ln(30)},
 			{Kind: "AddOrUpdateListener", Listener: ln(90)},
+		}},
+		{"listener-update-rejected", []*op{
+			{Kind: "AddOrUpdateListener", Listener: &mListener{Addr: "127.0.0.1:30000", RouterRef: "r0", StreamTag: "old"}},
+			{Kind: "AddOrUpdateListener", Listener: &mListener{Addr: "127.0.0.1:39999", RouterRef: "r0", StreamTag: "new"}, Note: "address-differs"},
 		}},
 		{"cluster-attributes-not-specified", []*op{
 			{Kind: "AddOrUpdateClusterAndHost", Cluster: &mCluster{Lb: "LB_ROUNDROBIN"}, Hosts: []mHost{{Addr: hostAddrPool[0], Weight: 1}}},
